@@ -446,6 +446,8 @@ func runCase(c string) string {
 		})
 	case "jbad":
 		return jbadRun(f)
+	case "popt":
+		return poptRun(f[1], vh.UnHex(f[2]), f[3:])
 	case "vsrc":
 		return vsrcRun(f)
 	case "ctag":
